@@ -347,7 +347,7 @@ def main_parent(prop: str, tier: str, replay: str | None) -> int:
         else:
             new.append(k)
 
-    replay_dir = ROOT / "replay" / prop
+    replay_dir = Path(os.environ.get("VERIF_REPLAY_DIR", ROOT / "replay")) / prop
     lines: list[str] = []
     for k, e in known_hit:
         lines.append(f"KNOWN-FINDING: property={prop} {k}: {e.get('what', vwhat.get(k, ''))} (observed {vcounts[k]}x)")
@@ -361,7 +361,7 @@ def main_parent(prop: str, tier: str, replay: str | None) -> int:
                 indent=1,
             )
         )
-        lines.append(f"VIOLATION property={prop} replay={fn.relative_to(ROOT)} key={k} count={vcounts[k]} what={vwhat.get(k, '')}")
+        lines.append(f"VIOLATION property={prop} replay={fn.relative_to(ROOT) if fn.is_relative_to(ROOT) else fn} key={k} count={vcounts[k]} what={vwhat.get(k, '')}")
 
     wall = time.monotonic() - t0
     if not replay:
